@@ -542,7 +542,7 @@ def run(chk):
     handle(gens, "gen", native=True)
     handle(corpus, "corpus", native=False)
 
-    if tie_broken and not found_concrete:
+    if tie_broken and not (found_concrete and chk.has_new_concrete()):
         fn, m = tie_broken[0]
         d = chk.replay_dir("tie")
         write_replay(d, fn, "T-dump tie broken: extracted model Model/Defers.v prints R=%s S=%s; impl R=%s S=%s (%d functions differ); "
